@@ -40,6 +40,11 @@ CLAIMED = {
    text='Theorems C10_matcher_spec / C10_frame_* hold for all packages, selectors and regex oracles; the model is tied to the code by the step correspondence (real processor vs compiled model on generated packages) and the frame property is re-checked on the real output of every selector-taking processor.',
    note='re is an oracle parameter (table per case); processors not in Layer A (set_type, validate, sort_rows, printer, parallelize, add_computed_field, find_replace, update_schema, load) are covered by the frame oracle on the real code only',
    ref='6/C10'),
+ 'C12': dict(
+   technique='Lean 4 proof (string order is a strict total order; fixed-width hex is an order embedding; flipped IEEE bit pattern orders like the value; key+separator+row-number compares as (key, row number); output is a sorted, stable permutation; reverse = exact reverse) + sortkey/sort correspondence + stable-sort oracle',
+   text='C12_suffix_lex, C12_flip_monotone, C12_num_key_order, C12_sorted_stable, C12_perm, C12_reverse_exact hold for all keys over code points above the separator, all finite doubles and all tables below 16^8 rows. The real rendered keys and the real output order are compared with the model (mergeSort of the real keys), the numeric rendering with renderNum on the bit pattern, and the real output with an independent stable sort by the specification order, incl. tables above the 10240-entry cache.',
+   note='bitstring packing = IEEE-754; kvfile ordered by key bytes; int/Decimal -> double conversion is monotone but not injective above 2^53 (listed finding); the empty string is null for Table Schema and not a key',
+   ref='6/C12'),
  'C14': dict(
    technique='Lean 4 proof (schema_validator loop = per-policy specification, for every cast function) + validate correspondence + policy oracle on real code',
    text='For every cast function, table, number and position of bad values: drop = filter+cast, ignore/clear keep all rows, custom handlers by truthiness, raise aborts at the first bad row with its absolute index, emitted values are casts; tied to the code by the validate correspondence with the real cast_value outcomes and re-checked directly on real set_type/validate runs.',
